@@ -275,20 +275,23 @@ def ensure_coq_build():
 
 
 def assumptions_summary(text):
-    """Summarise Print Assumptions output: list of (theorem-block, closed|axioms)."""
-    out = []
+    """Summarise Print Assumptions output: number of theorems closed under the global context,
+    and the names of all axioms / primitives the others depend on."""
     axioms = set()
     closed = 0
-    blocks = re.split(r'\n(?=Closed under the global context|Axioms:)', '\n' + text)
-    for b in blocks:
-        b = b.strip()
-        if b.startswith('Closed under the global context'):
+    in_ax = False
+    for line in text.splitlines():
+        if line.startswith('Closed under the global context'):
             closed += 1
-        elif b.startswith('Axioms:'):
-            for line in b.splitlines()[1:]:
-                m = re.match(r'^([A-Za-z_][\w\.\']*)\s*:', line)
-                if m:
-                    axioms.add(m.group(1))
+            in_ax = False
+        elif line.startswith('Axioms:'):
+            in_ax = True
+        elif in_ax:
+            m = re.match(r'^([A-Za-z_][\w\.\']*)', line)
+            if m and not line.startswith(' '):
+                axioms.add(m.group(1))
+            elif line.strip() == '' or line.startswith('Fetching'):
+                continue
     return closed, sorted(axioms)
 
 
